@@ -26,7 +26,8 @@ func ccTypesIn(e *Engine, fn *ssa.Function) map[string]bool {
 	if t == nil || pk == nil {
 		return out
 	}
-	forEachInstr(fn, func(in ssa.Instruction) {
+	// fn and the same-package helpers it is split into
+	e.forEachInstrRegion(fn, 2, func(in ssa.Instruction) {
 		b, ok := in.(*ssa.BinOp)
 		if !ok || (b.Op != token.EQL && b.Op != token.NEQ) {
 			return
@@ -45,7 +46,7 @@ func ccTypesIn(e *Engine, fn *ssa.Function) map[string]bool {
 // mapsConsulted: Membership map fields looked up or ranged in fn.
 func mapsConsulted(e *Engine, fn *ssa.Function) map[string]bool {
 	out := map[string]bool{}
-	forEachInstr(fn, func(in ssa.Instruction) {
+	e.forEachInstrRegion(fn, 2, func(in ssa.Instruction) {
 		var m ssa.Value
 		switch x := in.(type) {
 		case *ssa.Lookup:
@@ -114,20 +115,39 @@ func runC07(e *Engine, r *Report) {
 		r.guard("GD-cc-accept", "membership.apply called in "+fname(s.Parent()), s.(ssa.Instruction), reqs...)
 	}
 	r.floor("GD-cc-accept", n, 1)
-	// handleConfigChange returns true only when apply ran
+	// handleConfigChange reports "applied" exactly when apply ran: either it
+	// returns the very condition that guards apply, or (early-return form) no
+	// path reaches a `return true` without passing apply and no path leads
+	// from apply to a `return false`
+	isApply := func(x ssa.Instruction) bool {
+		c, ok := x.(*ssa.Call)
+		return ok && e.CallsTo(c, apply)
+	}
 	forEachInstr(hcc, func(in ssa.Instruction) {
 		ret, ok := in.(*ssa.Return)
 		if !ok {
 			return
 		}
 		v := retOperand(ret, 0)
-		// the returned value must be the same condition that guards apply
 		okv := false
-		for _, s := range e.SitesIn(hcc, apply) {
-			if g, _ := e.guardedOnAllPaths(s.(ssa.Instruction), Req{Name: "", Has: func(fs []Fact) bool {
-				return hasBoolFact(fs, func(x ssa.Value) bool { return x == v }, true)
-			}}); g {
+		if cb, isC := isConstBool(v); isC {
+			if cb {
+				okv = !e.findPath(hcc, nil, func(x ssa.Instruction) bool { return x == in }, isApply, nil).Found
+			} else {
 				okv = true
+				for _, s := range e.SitesIn(hcc, apply) {
+					if e.findPath(hcc, s.(ssa.Instruction), func(x ssa.Instruction) bool { return x == in }, nil, nil).Found {
+						okv = false
+					}
+				}
+			}
+		} else {
+			for _, s := range e.SitesIn(hcc, apply) {
+				if g, _ := e.guardedOnAllPaths(s.(ssa.Instruction), Req{Name: "", Has: func(fs []Fact) bool {
+					return hasBoolFact(fs, func(x ssa.Value) bool { return x == v }, true)
+				}}); g {
+					okv = true
+				}
 			}
 		}
 		r.check(okv, "GD-cc-accept", "handleConfigChange returns the acceptance that guarded apply", e.ipos(in),
